@@ -89,7 +89,7 @@ class Ctx:
         if o == 'harness-error':
             self.harness_errors.append({'case': case, 'err': res.get('harness_error')})
             return
-        if o == 'step-cap':
+        if o in ('step-cap', 'caller-killed'):
             self.inconclusive += 1
         st = res.get('stats') or {}
         self.steps += st.get('steps', 0) + st.get('nsys', 0)
